@@ -992,10 +992,3 @@ Proof.
     try (apply H24s; cbn in Hv; exact Hv);
     try (destruct Hv as [Hm Hr]; apply Hint; [lia | assumption | cbn in Hr |- *; lia]).
 Qed.
-
-Lemma arange_elem_cxx_spec fl start p q i : 0 < q -> 0 <= i -> (q = 1 -> fl = true -> 0 <= p /\ i * p < 2 ^ 64) ->
-  arange_elem_cxx fl start p q i = arange_elem start p q i.
-Proof.
-  intros Hq Hi H. unfold arange_elem_cxx, arange_elem. destruct (Z.eqb_spec q 1) as [->|]; [|reflexivity].
-  destruct fl; [|reflexivity]. cbn [andb]. destruct (H eq_refl eq_refl) as [Hp Hb]. rewrite wrap_small by nia. ring.
-Qed.
